@@ -2,6 +2,7 @@ package builder
 
 import (
 	"fmt"
+	"go/types"
 
 	"github.com/dave/jennifer/jen"
 	"github.com/jmattheis/goverter/xtype"
@@ -38,7 +39,7 @@ You have to disable enum or useUnderlyingTypeMethods to resolve the setting conf
 
 	if sourceUnderlying {
 		innerSource = xtype.TypeOf(source.NamedType.Underlying())
-		sourceID = xtype.OtherID(innerSource.TypeAsJen().Call(sourceID.Code))
+		sourceID = xtype.OtherID(conversionType(innerSource).Call(sourceID.Code))
 	}
 
 	if targetUnderlying {
@@ -63,6 +64,16 @@ You have to disable enum or useUnderlyingTypeMethods to resolve the setting conf
 	}
 
 	return stmt, id, err
+}
+
+// conversionType renders the type of a conversion T(x): a pointer, function
+// or channel type has to be parenthesized, *T(x) would dereference T(x).
+func conversionType(t *xtype.Type) *jen.Statement {
+	switch t.T.(type) {
+	case *types.Pointer, *types.Signature, *types.Chan:
+		return jen.Parens(t.TypeAsJen())
+	}
+	return t.TypeAsJen()
 }
 
 func (u *UseUnderlyingTypeMethods) Assign(gen Generator, ctx *MethodContext, assignTo *AssignTo, sourceID *xtype.JenID, source, target *xtype.Type, errPath ErrorPath) ([]jen.Code, *Error) {
